@@ -85,9 +85,11 @@ class Val2Idx(Obligation):
         n = self.n
         f = F()
         f.createDimension('x', n)
-        v = f.createVariable('x', 'O' if np is None else 'd', ('x',))
+        ic = getattr(self, 'icoord', None)
+        v = f.createVariable('x', 'i' if ic else ('O' if np is None else 'd'),
+                             ('x',))
         for i in range(n):
-            v[i] = cs[i]
+            v[i] = int(ic[i]) if ic else cs[i]
         if self.bvar == 'edges1d':
             f.createDimension('xe', n + 1)
             b = f.createVariable('x_bounds', 'O' if np is None else 'd',
@@ -109,7 +111,12 @@ class Val2Idx(Obligation):
         F = sp.twin('PseudoNetCDF.core._files').PseudoNetCDFFile
         n = self.n
         sgn = 1 if self.dir == 'asc' else -1
-        cs = [ctx.real('c%d' % i) for i in range(n)]
+        if getattr(self, 'icoord', None):
+            # coordinate stored with an integer type: concrete values
+            from verifx import symx as _sx
+            cs = [_sx.SymReal(z3.RealVal(int(x))) for x in self.icoord]
+        else:
+            cs = [ctx.real('c%d' % i) for i in range(n)]
         for a, b in zip(cs[:-1], cs[1:]):
             ctx.assume(sgn * (b.e - a.e) > 0)
         es = None
@@ -231,7 +238,10 @@ class Val2Idx(Obligation):
         import numpy as np
         from PseudoNetCDF.core import _files as RF
         n = self.n
-        cs = [float(frac_of(inputs['c%d' % i])) for i in range(n)]
+        if getattr(self, 'icoord', None):
+            cs = [float(x) for x in self.icoord]
+        else:
+            cs = [float(frac_of(inputs['c%d' % i])) for i in range(n)]
         es = None
         if self.bvar != 'none':
             es = [float(frac_of(inputs['e%d' % i])) for i in range(n + 1)]
@@ -567,6 +577,15 @@ def obligations(tier):
         for b, c, lr in [('error', 'none', 'None'), ('warn', 'mask', 'nan')]:
             obs.append(Val2Idx(2 if tier == 'quick' else 3, d, bv, m, b, c,
                                lr, 2))
+    # coordinates stored with an integer type, real-valued queries
+    for d, m in itertools.product(('asc', 'desc'),
+                                  ('exact', 'nearest', 'bounds')):
+        o = Val2Idx(3, d, 'none', m, 'ignore', 'mask', 'None', 1)
+        o.icoord = (1, 3, 4) if d == 'asc' else (4, 3, 1)
+        o.name = o.name.replace('val2idx[', 'val2idx[int-coord,')
+        o.bounds = dict(o.bounds, **{'coordinate values': 'int32 %r' % (
+            o.icoord,)})
+        obs.append(o)
     # datetime front ends
     for unit, kinds in (('hours', ('naive',)), ('hours', ('aware',)),
                         ('hours', ('naive', 'aware')),
@@ -596,7 +615,8 @@ MANIFEST = {
             'floats are reals. Datetime lookups: for every instant (whole '
             'seconds, 1999-2001) and every UTC offset the real date2num/'
             'time2idx code hands val2idx the number of units between the '
-            'instant and the reference, for naive, aware and mixed inputs.',
+            'instant and the reference, for naive, aware and mixed inputs.'
+            ' Also: coordinates stored as int32 (concrete values) with real-valued symbolic queries, all three methods.',
     'note': 'Trusted: z3; the shim definitions of np.interp/np.round/'
             'masked_invalid on symbolic scalars (cross-checked on every path '
             'by replaying one model on real numpy and comparing index, '
